@@ -133,6 +133,9 @@ type Loop struct {
 	indexForm bool
 }
 
+// Rotated: the loop is bottom-tested (the body runs before the bound test; exit paths carry a full iteration).
+func (l *Loop) Rotated() bool { return l.Op == "rot<" }
+
 // Index returns the term of the current element's index inside an iteration of a slice loop.
 func (l *Loop) Index(an *ir.Analysis) *ir.Term {
 	sym := an.Start[l.Header].Reg(l.Phi)
@@ -233,6 +236,19 @@ func countedLoop(an *ir.Analysis, h *ssa.BasicBlock) *Loop {
 			}
 			for si, s := range p.Events(ir.KBranch) {
 				at := s.Atom
+				if at.Op == "bin" && at.Aux == "==" && len(at.Args) == 2 && !s.Pol && step == 1 {
+					// for i := S; i != n; i++   (n non-negative: otherwise the loop would not stop at n)
+					var b *ir.Term
+					if ir.Same(at.Args[0], sym) {
+						b = at.Args[1]
+					} else if ir.Same(at.Args[1], sym) {
+						b = at.Args[0]
+					}
+					if b != nil && nonNegTerm(b) && !mentions(b, sym) {
+						l.Op, l.Bound = "!=", b
+						break
+					}
+				}
 				if at.Op != "bin" || at.Aux != "<" || len(at.Args) != 2 {
 					continue
 				}
@@ -243,8 +259,14 @@ func countedLoop(an *ir.Analysis, h *ssa.BasicBlock) *Loop {
 				case ir.Same(y, sym):
 					l.Op, l.Bound = ">", x
 				default:
-					if d, ok := plusConst(x, sym); ok && d == 1 && y.Op == "len" {
+					d, ok := plusConst(x, sym)
+					s0, isK := startT.IntConst()
+					if ok && d == 1 && y.Op == "len" && isK && s0 == -1 {
 						l.Op, l.Bound, l.RangeOver = "range", y, y.Args[0]
+					} else if ok && d == 1 && s.Pol && p.To == h && entryGuard(an, h, startT, y) {
+						// bottom-tested (rotated) loop `for i := range n`: the body runs for phi, then continues iff
+						// phi+1 < n; the entry is guarded by start < n
+						l.Op, l.Bound = "rot<", y
 					}
 				}
 				if l.Op != "" {
@@ -270,14 +292,14 @@ func countedLoop(an *ir.Analysis, h *ssa.BasicBlock) *Loop {
 		// trip count for ascending loops
 		if s0, ok := l.Start.IntConst(); ok && l.Step == 1 {
 			switch {
-			case l.Op == "<" && s0 == 0:
+			case (l.Op == "<" || l.Op == "!=" || l.Op == "rot<") && s0 == 0:
 				l.Trip = l.Bound
 			case l.Op == "<=" && s0 == 1:
 				l.Trip = l.Bound
 			case l.Op == "range" && s0 == -1:
 				l.Trip = l.Bound // len(x)
 			}
-			if l.Op == "<" && s0 == 0 && l.Bound.Op == "len" {
+			if (l.Op == "<" || l.Op == "!=") && s0 == 0 && l.Bound.Op == "len" {
 				l.RangeOver, l.indexForm = l.Bound.Args[0], true
 			}
 		}
@@ -290,6 +312,56 @@ func countedLoop(an *ir.Analysis, h *ssa.BasicBlock) *Loop {
 		return l
 	}
 	return nil
+}
+
+// entryGuard: every path entering the loop at h from outside establishes start < bound.
+func entryGuard(an *ir.Analysis, h *ssa.BasicBlock, start, bound *ir.Term) bool {
+	if start == nil {
+		return false
+	}
+	lb := ir.LoopBlocks(h)
+	atom := &ir.Term{Op: "bin", Aux: "<", Args: []*ir.Term{start, bound}}
+	n := 0
+	for _, ps := range an.Segs {
+		for _, p := range ps {
+			if p.To == h && (p.From == nil || !lb[p.From]) {
+				n++
+				if polarity(p, atom) <= 0 {
+					return false
+				}
+			}
+		}
+	}
+	return n > 0
+}
+
+// nonNegTerm: the term denotes a value that is never negative.
+func nonNegTerm(t *ir.Term) bool {
+	if k, ok := t.IntConst(); ok {
+		return k >= 0
+	}
+	switch t.Op {
+	case "len", "cap":
+		return true
+	case "pure":
+		return strings.HasSuffix(t.Aux, ".NumField") || strings.HasSuffix(t.Aux, ".Len") || strings.HasSuffix(t.Aux, ".NumMethod")
+	}
+	return false
+}
+
+func mentions(t, sub *ir.Term) bool {
+	if t == nil {
+		return false
+	}
+	if ir.Same(t, sub) {
+		return true
+	}
+	for _, a := range t.Args {
+		if mentions(a, sub) {
+			return true
+		}
+	}
+	return false
 }
 
 func continuesLoop(p *ir.Path, h *ssa.BasicBlock) bool {
